@@ -11,12 +11,14 @@ import (
 	"errors"
 	"fmt"
 	"os"
+	"path/filepath"
 	"sort"
 
 	gittuf "github.com/gittuf/gittuf/experimental/gittuf"
 	trustpolicyopts "github.com/gittuf/gittuf/experimental/gittuf/options/trustpolicy"
 	"github.com/gittuf/gittuf/internal/policy"
 	policyopts "github.com/gittuf/gittuf/internal/policy/options/policy"
+	sshsv "github.com/gittuf/gittuf/internal/signerverifier/ssh"
 	"github.com/gittuf/gittuf/internal/tuf"
 	"github.com/gittuf/gittuf/pkg/rsl"
 )
@@ -60,6 +62,7 @@ func c12ApiCase(c *runCtx, ci int) error {
 		return err
 	}
 	steps, human := []string{}, []string{}
+	lastObs := ""
 	outsiderEdits, refusedOutsiders, applies, appliesOK := 0, 0, 0, 0
 	nOps := 4 + r.Intn(6)
 	for k := 0; k < nOps; k++ {
@@ -144,8 +147,9 @@ func c12ApiCase(c *runCtx, ci int) error {
 		st, _ = gi.GetReference(policy.PolicyStagingRef)
 		_, lerr := policy.LoadCurrentState(ctx, gi, policy.PolicyRef)
 		rsl.VerifResetCache()
-		steps = append(steps, fmt.Sprintf("(%d%%N, %s, {| ao_err := %d; ao_keys := %s; ao_thr := (%d)%%Z; ao_version := %d%%N; ao_signers := %s; ao_applied := %s; ao_loadable := %s |})",
-			signer, op, code, coqKeys(keys), thr, rm.GetVersion(), coqKeys(sigs), coqBool(pt.Equal(st)), coqBool(lerr == nil)))
+		lastObs = fmt.Sprintf("ao_keys := %s; ao_thr := (%d)%%Z; ao_version := %d%%N; ao_signers := %s; ao_applied := %s; ao_loadable := %s |}",
+			coqKeys(keys), thr, rm.GetVersion(), coqKeys(sigs), coqBool(pt.Equal(st)), coqBool(lerr == nil))
+		steps = append(steps, fmt.Sprintf("(%d%%N, %s, {| ao_err := %d; %s)", signer, op, code, lastObs))
 		human = append(human, fmt.Sprintf("%s => %v | staged root: keys %v threshold %d version %d signatures %v; policy==staging %v; policy loadable %v", h, opErr, keys, thr, rm.GetVersion(), sigs, pt.Equal(st), lerr == nil))
 		if code == 1 {
 			refusedOutsiders++
@@ -153,6 +157,41 @@ func c12ApiCase(c *runCtx, ci int) error {
 		if op != "RSign" && op != "RApply" {
 			outsiderEdits++
 		}
+	}
+	// one case in three ends with InitializeRoot on the initialised repository, by a root key or by an outsider,
+	// half of the time after the staging reference has been deleted (tampering; a clone that fetched only the
+	// applied policy looks the same)
+	reinit := ""
+	if r.Intn(3) == 0 && lastObs != "" {
+		signer := []int{1, 3, 5, 6, 6}[r.Intn(5)]
+		keyPath := filepath.Join(c.outDir, fmt.Sprintf("c12api-key-%d", signer))
+		if err := os.WriteFile(keyPath, poolKeyN(signer).PEM, 0o600); err != nil {
+			return err
+		}
+		defer os.Remove(keyPath)
+		sshSigner, err := sshsv.NewSignerFromFile(keyPath)
+		if err != nil {
+			return fmt.Errorf("ssh signer: %w", err)
+		}
+		deleted := r.Intn(2) == 0
+		if deleted {
+			if _, err := gitOut(dir, "update-ref", "-d", policy.PolicyStagingRef); err != nil {
+				return err
+			}
+		}
+		rsl.VerifResetCache()
+		ierr := repo.InitializeRoot(ctx, sshSigner, false)
+		rsl.VerifResetCache()
+		code := 9
+		switch {
+		case ierr == nil:
+			code = 0
+		case errors.Is(ierr, gittuf.ErrCannotReinitialize):
+			code = 5
+		}
+		steps = append(steps, fmt.Sprintf("(%d%%N, RInit, {| ao_err := %d; %s)", signer, code, lastObs))
+		reinit = fmt.Sprintf("InitializeRoot by %d (staging reference deleted first: %v) => %v", signer, deleted, ierr)
+		human = append(human, reinit)
 	}
 	term := fmt.Sprintf("(C12Api %s %s)", p0.coq(), coqList(steps))
 	c.add(term, sideCase{Class: "api-root-mutators", Nontrivial: refusedOutsiders > 0 || appliesOK > 0, Key: keyOf(term),
